@@ -80,7 +80,7 @@ def check_combination(ctx, case):
         kw['mean'] = mean
     p = must(case, 'constructing %s(%s)' % (op, sorted(kw)), klass, **kw)
     if traces.shape[0] > 1:
-        must(case, '%s priming call on other traces' % op, p, np.ascontiguousarray(traces[::-1]))     # the same object is reused: no state may leak into the next call
+        must(case, '%s priming call on other traces' % op, p, np.concatenate([traces[::-1], traces[::-1][:, :3]], axis=1))     # same object first used on longer traces: no state may leak into the next call
     out = must(case, '%s on %s%s' % (op, traces.dtype, traces.shape), p, gen.L(case, traces))
     n, L = traces.shape
     pairs = _pairs(cfg, L)
@@ -284,7 +284,7 @@ def check_timefreq(ctx, case):
         warnings.simplefilter('ignore')
         p = must(case, 'constructing %s(%s)' % (op, sorted(kw)), klass, **kw)
         if traces.shape[0] > 1:
-            must(case, '%s priming call on other traces' % op, p, np.ascontiguousarray(traces[::-1]))     # the same object is reused: no state may leak into the next call
+            must(case, '%s priming call on other traces' % op, p, np.concatenate([traces[::-1], traces[::-1][:, :3]], axis=1))     # same object first used on longer traces: no state may leak into the next call
         out = must(case, '%s on %s%s' % (op, traces.dtype, traces.shape), p, gen.L(case, traces))
     n, L = traces.shape
     g1 = f1 if f1 is not None else f2
